@@ -158,7 +158,11 @@ def flipsJson (k : Key) (msg nonce aad : Bytes) : Json :=
       let a := (List.range (8 * whole.length)).map fun i => let w := flipBit whole i; d (w.take ct.length) (w.drop ct.length) nonce aad
       let b := (List.range (8 * nonce.length)).map fun i => d ct tag (flipBit nonce i) aad
       let c := (List.range (8 * aad.length)).map fun i => d ct tag nonce (flipBit aad i)
-      Json.mkObj [("base", .str (d ct tag nonce aad)), ("ct_tag", rle a), ("nonce", rle b), ("aad", rle c)]
+      let kf := (List.range (8 * k.bytes.length)).map fun i =>
+        code (okSame msg) (do
+          let k2 ← fromSecretBytes k.alg (flipBit k.bytes i)
+          aeadDecrypt d5Fixed prims k2 ct tag nonce aad)
+      Json.mkObj [("base", .str (d ct tag nonce aad)), ("ct_tag", rle a), ("nonce", rle b), ("aad", rle c), ("key", rle kf)]
     | _, _ => Json.mkObj [("panic", .str "accessor")]
   | .err er => jerr2 er
   | .panic p => Json.mkObj [("panic", .str (reprStr p))]
